@@ -315,6 +315,7 @@ func guardMixin(c *Ctx) {
 	c.mixinSections(mix)
 	c.opIDRules(reach)
 	c.mapEquality(reach)
+	c.staleAliases(reach)
 }
 
 func isBuiltin(info *types.Info, call *ast.CallExpr, name string) bool {
@@ -1013,6 +1014,42 @@ func guardFixer(c *Ctx) {
 			continue
 		}
 		p0 := sig.Params().At(0)
+		// a part of the first parameter handed to a fixing call: fix(rs.Default)
+		ordCall := 0
+		ast.Inspect(fi.Decl.Body, func(nd ast.Node) bool {
+			call, ok := nd.(*ast.CallExpr)
+			if !ok {
+				return true
+			}
+			callee := c.P.StaticCallee(fi, call)
+			if callee == nil || c.P.Funcs[callee] == nil {
+				return true
+			}
+			for _, a := range call.Args {
+				p := c.P.PathOf(fi, a, true)
+				if p == nil || p.Root != p0 || len(p.Steps) == 0 || p.Steps[0].Field == nil {
+					continue
+				}
+				own := p.Steps[0].Name
+				var foreign []string
+				for _, cd := range c.conds(fi, call) {
+					if cd.Kind != core.CondBool {
+						continue
+					}
+					ast.Inspect(cd.Expr, func(m ast.Node) bool {
+						if sel, ok := m.(*ast.SelectorExpr); ok && core.ObjOf(info, sel.X) == p0 && core.FieldOf(info, sel) != nil && sel.Sel.Name != own {
+							foreign = append(foreign, exprStr(cd.Expr))
+						}
+						return true
+					})
+				}
+				ordCall++
+				c.S.Decide(len(foreign) == 0, "C19", "GUARD-SECTIONS", fmt.Sprintf("%s/call#%d %s", fi.QName(), ordCall, own), c.P.Pos(call.Pos()),
+					"this part is fixed whatever the other parts contain",
+					"fixing "+exprStr(a)+" is conditional on another part of the same object ("+strings.Join(foreign, ", ")+"): it is not fixed when that part is absent or empty")
+			}
+			return true
+		})
 		ast.Inspect(fi.Decl.Body, func(nd ast.Node) bool {
 			rs, ok := nd.(*ast.RangeStmt)
 			if !ok {
@@ -1167,10 +1204,51 @@ func (c *Ctx) mapEquality(reach []*core.FuncInfo) {
 			}
 			return true
 		})
+		// element-wise comparison of two slices inside the predicate: for i := range x { … y[i] … } needs len(x) == len(y)
+		sliceBad := ""
+		ast.Inspect(fi.Decl.Body, func(nd ast.Node) bool {
+			rs, ok := nd.(*ast.RangeStmt)
+			if !ok || rs.Key == nil || !core.IsSlice(info.TypeOf(rs.X)) {
+				return true
+			}
+			ko := core.ObjOf(info, rs.Key)
+			var other ast.Expr
+			ast.Inspect(rs.Body, func(m ast.Node) bool {
+				if ix, ok := m.(*ast.IndexExpr); ok && core.ObjOf(info, ix.Index) == ko && ko != nil && core.IsSlice(info.TypeOf(ix.X)) && !sameExpr(ix.X, rs.X) {
+					other = ix.X
+				}
+				return true
+			})
+			if other == nil {
+				return true
+			}
+			compared := false
+			ast.Inspect(fi.Decl.Body, func(m ast.Node) bool {
+				be, ok := m.(*ast.BinaryExpr)
+				if !ok || be.Op != token.EQL && be.Op != token.NEQ {
+					return true
+				}
+				lenOf := func(e, of ast.Expr) bool {
+					call, ok := core.Unparen(e).(*ast.CallExpr)
+					return ok && isBuiltin(info, call, "len") && len(call.Args) == 1 && sameExpr(call.Args[0], of)
+				}
+				if lenOf(be.X, rs.X) && lenOf(be.Y, other) || lenOf(be.X, other) && lenOf(be.Y, rs.X) {
+					compared = true
+				}
+				return true
+			})
+			if !compared {
+				sliceBad = "the lists " + exprStr(rs.X) + " and " + exprStr(other) + " are compared element by element over the first one only, their lengths are never compared: a list that merely starts like the other counts as equal"
+			}
+			return true
+		})
 		if len(ranged) == 0 {
 			continue
 		}
 		n++
+		if sliceBad != "" {
+			c.S.Violate("C17", "GUARD-MAPEQ", fi.QName()+"/lists", c.P.Pos(fi.Decl.Pos()), sliceBad+" — the merge drops such an entry as a duplicate and reports a collision that is none")
+		}
 		ok := lenCompared || len(ranged) == 2
 		c.S.Decide(ok, "C17", "GUARD-MAPEQ", fi.QName(), c.P.Pos(fi.Decl.Pos()),
 			"the comparison of the two maps is two-sided (both lengths, or both directions)",
@@ -1211,4 +1289,125 @@ func (c *Ctx) isPrimaryParam(mix, fi *core.FuncInfo, reach []*core.FuncInfo, dep
 		}
 	}
 	return sites > 0
+}
+
+// staleAliases (C17/C18, GUARD-STALEALIAS): two shapes of "the map written is not the map the caller sees".
+//   - a result variable (or any variable that flows to a return) is assigned from a map variable that is re-made
+//     afterwards: result = primary; …; primary = make(…); primary[k] = v — the returned map is the old (nil) one;
+//   - a map parameter is re-made inside the function and then stored into: the caller's map never sees the stores
+//     (the id set shared by the mixins).
+func (c *Ctx) staleAliases(reach []*core.FuncInfo) {
+	n := 0
+	for _, fi := range reach {
+		info := c.info(fi)
+		type asg struct {
+			lhs, rhs types.Object
+			pos      token.Pos
+			remake   bool
+			node     *ast.AssignStmt
+		}
+		var list []asg
+		ast.Inspect(fi.Decl.Body, func(nd ast.Node) bool {
+			as, ok := nd.(*ast.AssignStmt)
+			if !ok || len(as.Lhs) != len(as.Rhs) {
+				return true
+			}
+			for i, l := range as.Lhs {
+				lo := core.ObjOf(info, l)
+				if _, isID := core.Unparen(l).(*ast.Ident); !isID || lo == nil || !core.IsMap(lo.Type()) {
+					continue
+				}
+				a := asg{lhs: lo, pos: as.Pos(), node: as}
+				r := core.Unparen(as.Rhs[i])
+				if ro := core.ObjOf(info, r); ro != nil {
+					if _, isID := r.(*ast.Ident); isID {
+						a.rhs = ro
+					}
+				}
+				if call, ok := r.(*ast.CallExpr); ok && isBuiltin(info, call, "make") {
+					a.remake = true
+				}
+				if _, ok := r.(*ast.CompositeLit); ok {
+					a.remake = true
+				}
+				list = append(list, a)
+			}
+			return true
+		})
+		storesInto := func(o types.Object, after token.Pos) bool {
+			found := false
+			ast.Inspect(fi.Decl.Body, func(nd ast.Node) bool {
+				if as, ok := nd.(*ast.AssignStmt); ok && as.Pos() > after {
+					for _, l := range as.Lhs {
+						if ix, ok := core.Unparen(l).(*ast.IndexExpr); ok && core.ObjOf(info, ix.X) == o {
+							found = true
+						}
+					}
+				}
+				return true
+			})
+			return found
+		}
+		for _, rm := range list {
+			if !rm.remake || rm.node.Tok != token.ASSIGN {
+				continue
+			}
+			// (2) a parameter re-made and stored into
+			if _, isParam := c.paramIndexOf(fi, rm.lhs); isParam && storesInto(rm.lhs, rm.pos) {
+				n++
+				c.S.Violate("C18", "GUARD-STALEALIAS", fi.QName()+"/param "+types.TypeString(rm.lhs.Type(), nil), c.P.Pos(rm.pos),
+					"the map parameter "+rm.lhs.Name()+" is re-made inside "+fi.Name()+" and then stored into: the caller's map never sees those entries — the ids recorded while merging one mixin are forgotten for the next, and two mixins can bring the same operation id")
+			}
+			// (1) an earlier alias of the re-made variable flows to a return and is not refreshed
+			for _, al := range list {
+				if al.rhs != rm.lhs || al.pos >= rm.pos || al.lhs == rm.lhs {
+					continue
+				}
+				if !c.flowsToReturnObj(fi, al.lhs) || !storesInto(rm.lhs, rm.pos) {
+					continue
+				}
+				refreshed := false
+				for _, later := range list {
+					if later.lhs == al.lhs && later.rhs == rm.lhs && later.pos > rm.pos {
+						refreshed = true
+					}
+				}
+				if refreshed {
+					continue
+				}
+				n++
+				c.S.Violate("C17", "GUARD-STALEALIAS", fi.QName()+"/"+al.lhs.Name(), c.P.Pos(al.pos),
+					al.lhs.Name()+" is taken from "+rm.lhs.Name()+" before "+rm.lhs.Name()+" is re-made at "+c.P.Pos(rm.pos)+" and is returned without being refreshed: the entries stored afterwards go into a map the caller never receives (extensions of a mixin are lost when the primary has none)")
+			}
+		}
+	}
+	if n == 0 {
+		c.S.Hold("C17", "GUARD-STALEALIAS", "Mixin", "-", "no map is returned or shared through a variable captured before the map was re-made")
+	}
+}
+
+// flowsToReturnObj: the variable is a named result or appears in a return statement.
+func (c *Ctx) flowsToReturnObj(fi *core.FuncInfo, o types.Object) bool {
+	info := c.info(fi)
+	if res := fi.Decl.Type.Results; res != nil {
+		for _, fl := range res.List {
+			for _, nm := range fl.Names {
+				if info.Defs[nm] == o {
+					return true
+				}
+			}
+		}
+	}
+	found := false
+	ast.Inspect(fi.Decl.Body, func(n ast.Node) bool {
+		if r, ok := n.(*ast.ReturnStmt); ok {
+			for _, x := range r.Results {
+				if core.ObjOf(info, x) == o {
+					found = true
+				}
+			}
+		}
+		return true
+	})
+	return found
 }
